@@ -213,6 +213,32 @@ def part_e(chk):
     chk.part("e_field_index_boundaries", inputs=len(reqs), note="`_i` for i = 0 .. fields+2 as named placeholder, positional argument, alias, width/precision parameter, in struct / variant / shared-enum / Debug-field positions")
 
 
+def part_f(chk, thorough):
+    """The derive inputs of the other properties' program spaces: C01's supported shapes, C17's documented spellings and
+    single-step corruptions, every C09 field layout with up to three fields (struct and enum variant): whatever they
+    expand to, it must not be an internal failure."""
+    import c01
+    import c09
+    import c17
+    reqs = list(c01.build(thorough)[4])
+    for d, desc, forms in c17.rewrites():
+        reqs += [{"derive": d, "item": f} for f in forms]
+    reqs += [{"derive": d, "item": item} for d, cls, item, rustc in c17.corruptions()]
+    for named, fields in c09.layouts(3):
+        for container in ("struct", "enum"):
+            reqs.append({"derive": "Error", "item": c09.item_text(named, fields, container, lambda f, i: ("my::Backtrace" if f["ty"] == "bt" else "E%d" % i))})
+    seen, uniq = set(), []
+    for q in reqs:
+        k = (q["derive"], q["item"])
+        if k not in seen:
+            seen.add(k)
+            uniq.append(q)
+    res = svc(uniq, timeout=300)
+    # these generators write valid Rust by construction; an item that does not parse is their bug, reported as such
+    evaluate(chk, "f_cross_property_corpus", uniq, res)
+    chk.part("f_cross_property_corpus", inputs=len(uniq), sources=["C01 supported-shape space", "C17 documented spellings and corruptions", "C09 Error layouts with 0..3 fields"])
+
+
 def run(chk, tier):
     thorough = tier == "thorough"
     exe = inproc_bin()
@@ -222,6 +248,7 @@ def run(chk, tier):
         raise MachineryError("expected 50 derives in the table generated from lib.rs, found %d" % len(derives))
     part_a(chk, derives)
     part_e(chk)
+    part_f(chk, thorough)
     sweep(chk, "parser", ["--len", "5" if thorough else "4"], "b_parser_direct")
     sweep(chk, "lit", ["--len", "4" if thorough else "3"], "b_literals_in_attributes")
     if thorough:
